@@ -57,6 +57,11 @@ def build(tier="quick"):
     add("into_trait", fn("let a: A3 = arr![1, 2, 3];\n    let x: [u8; 3] = a.into();"), fn("let a: A3 = arr![1, 2, 3];\n    let x: [u8; 2] = a.into(); //~"), LEN)
     add("from_array_ref", fn("let x = [1u8, 2, 3];\n    let a: &A3 = (&x).into();"), fn("let x = [1u8, 2, 3, 4];\n    let a: &A3 = (&x).into(); //~"), LEN)
     add("as_ref_array", fn("let a: A3 = arr![1, 2, 3];\n    let x: &[u8; 3] = a.as_ref();"), fn("let a: A3 = arr![1, 2, 3];\n    let x: &[u8; 4] = a.as_ref(); //~"), LEN)
+    add("as_mut_array", fn("let mut a: A3 = arr![1, 2, 3];\n    let x: &mut [u8; 3] = a.as_mut();"), fn("let mut a: A3 = arr![1, 2, 3];\n    let x: &mut [u8; 4] = a.as_mut(); //~"), LEN)
+    add("as_mut_array_shorter", fn("let mut a: A4 = arr![1, 2, 3, 4];\n    let x: &mut [u8; 4] = a.as_mut();"), fn("let mut a: A4 = arr![1, 2, 3, 4];\n    let x: &mut [u8; 3] = a.as_mut(); //~"), LEN)
+    add("as_ref_array_shorter", fn("let a: A4 = arr![1, 2, 3, 4];\n    let x: &[u8; 4] = a.as_ref();"), fn("let a: A4 = arr![1, 2, 3, 4];\n    let x: &[u8; 3] = a.as_ref(); //~"), LEN)
+    add("from_ref_array_len", fn("let n = [1u8, 2, 3];\n    let x: &A3 = (&n).into();"), fn("let n = [1u8, 2, 3];\n    let x: &A4 = (&n).into(); //~"), LEN)
+    add("from_mut_array_len", fn("let mut n = [1u8, 2, 3];\n    let x: &mut A3 = (&mut n).into();"), fn("let mut n = [1u8, 2, 3];\n    let x: &mut A4 = (&mut n).into(); //~"), LEN)
     add("const_array_length", fn("let a: GenericArray<u8, ConstArrayLength<3>> = arr![1, 2, 3];"), fn("let a: GenericArray<u8, ConstArrayLength<4>> = arr![1, 2, 3]; //~"), LEN)
     # ---- tuples --------------------------------------------------------------------------------------
     ks = range(1, 13) if tier == "thorough" else (1, 2, 5, 12)
